@@ -38,6 +38,8 @@ def handle(case):
             ref = a
         else:
             x = ndx.array(shape=tuple(spec["sig"]), dtype=nd.dt(spec["dtype"]))
+            if spec.get("expr"):
+                x = eval(spec["expr"], {"x": x, "ndx": ndx})
             ref = None
         row = {"spec": spec, "ndx": {}, "np": {}}
         for name, f in (("bool", bool), ("int", int), ("float", float), ("index", operator.index), ("len", len)):
